@@ -12,6 +12,7 @@ import (
 	"path/filepath"
 	"strings"
 	"testing"
+	"time"
 
 	"github.com/rs/zerolog"
 
@@ -147,6 +148,8 @@ func reloadCorpus(comp string) []ReloadCase {
 // content and the real OnChanged is called with recover.
 func RunReload(t *testing.T, comp string, create func(path, keyID, password string) (Component, error)) {
 	t.Helper()
+
+	defer Watchdog(t, comp, 60*time.Second)()
 
 	w := vf.NewWriter()
 	defer w.Close()
